@@ -349,6 +349,9 @@ def sd_bound(s, already=()):
     sdt = s.p["sdt"]
     if sdt is None:
         return mx
+    never = [truthy(m.p.get("sd_never", False)) for m in s.children if not m.is_sched and m.p.get("sd_never", False) is not False]
+    if never:
+        return ite(sor(*never), smax(sdt, 0), smin(mx, smax(sdt, 0)))
     return smin(mx, smax(sdt, 0))
 
 
@@ -883,6 +886,16 @@ def c13_shutdown(api, run):
             api.note("c13_bounded_phase")
             prove(api, es[0].t - bs[0].t <= smax(sdt, 0),
                   "C13: the shutdown phase of %s lasted longer than its shutdown_timeout" % s, run)
+        if bs and es and es[0].kind == "ssd_end":
+            for m in s.children:
+                c = run.first(m.name, "ssd_cancel" if m.is_sched else "sd_cancel")
+                if c is not None and bs[0].seq < c.seq < es[0].seq:
+                    api.note("c13_handlers_cancelled")
+                    if sdt is None:
+                        fail(api, "C13: the shutdown handler of %s was cancelled although %s has no shutdown_timeout"
+                             % (m, s), run)
+                    prove(api, c.t - bs[0].t >= sdt, "C13: the shutdown handler of %s was cancelled before the "
+                          "shutdown_timeout of %s had elapsed" % (m, s), run)
         if bs and es and es[0].kind == "ssd_end" and s.children:
             cancelled = [m for m in s.children
                          if run.first(m.name, "ssd_cancel" if m.is_sched else "sd_cancel") is not None
